@@ -129,9 +129,19 @@ func checkNewCall(
 	constructors util.TypeAssociationRegistry,
 	currentFunction string,
 ) *ConstructorViolation {
-	ident, ok := call.Fun.(*ast.Ident)
+	ident, ok := ast.Unparen(call.Fun).(*ast.Ident)
 	if !ok || ident.Name != "new" {
 		return nil
+	}
+
+	// a function, variable or parameter that merely is named "new" shadows the builtin:
+	// calling it is an ordinary call, not an allocation
+	if pass.TypesInfo != nil {
+		if obj := pass.TypesInfo.Uses[ident]; obj != nil {
+			if _, isBuiltin := obj.(*types.Builtin); !isBuiltin {
+				return nil
+			}
+		}
 	}
 
 	if len(call.Args) != 1 {
